@@ -371,6 +371,8 @@ func runWire(cfg *runCfg) error {
 			dcases = append(dcases, fmt.Sprintf("(%s, %s)", cBytes(mb), coqOpt(d)))
 		}
 	}
+	// the same through the real message factory (wire_factory.go)
+	cases = append(cases, factoryCases(r, rep, kr, n/2)...)
 	// block proofs from commit messages
 	for i := 0; i < n/5; i++ {
 		ref := rRef(r, rep)
@@ -409,7 +411,7 @@ func runWire(cfg *runCfg) error {
 	}
 	rep.Evaluations = len(cases) + len(dcases) + len(bcases)
 	rep.DistinctNontr = len(cases) + len(bcases)
-	rep.Rule = "messages of all five kinds and block proofs with instance/height/view across the 64-bit range, ids/hashes/signatures/shares of length 0..257 with arbitrary bytes, 0..20 votes and prepare senders, with and without proofs; each built through the repo's builders and CreateConsensusRawMessage and read back through ToConsensusMessage; plus two mutated copies (truncation, bit flip, trailing bytes, size word, random) of each, compared when the Go reader does not panic; non-trivial = built message or block proof (distinct with overwhelming probability: random field values)"
+	rep.Rule = "messages of all five kinds and block proofs with instance/height/view across the 64-bit range, ids/hashes/signatures/shares of length 0..257 with arbitrary bytes, 0..20 votes and prepare senders, with and without proofs; each built through the repo's builders and CreateConsensusRawMessage and read back through ToConsensusMessage; half as many again built through services/messagesfactory (votes from PreparedMessages of other members' factories, a sixth with different hashes in the two halves, a sixth with an empty PREPREPARE hash; NEW_VIEWs from such votes), compared with the message the inputs describe and every signature re-verified over the re-read bytes; plus two mutated copies (truncation, bit flip, trailing bytes, size word, random) of each, compared when the Go reader does not panic; non-trivial = built message or block proof (distinct with overwhelming probability: random field values)"
 	cf := newCaseFile("From LH Require Import Prims Wire WireLH Msg Corr.\nOpen Scope N_scope.")
 	cf.addShards("wc", "wcase", "w_ok", cases, 250)
 	cf.addShards("wd", "wdcase", "wd_ok", dcases, 500)
